@@ -339,7 +339,7 @@ def corpus():
 
 
 def check(run: Run, lean: dict) -> int:
-    n = 1500 if run.tier == "quick" else 40000
+    n = run.budget(1500, 40000)
     run.extra["rule"] = (
         "generated trees (namespaces, attributes, text, comments, PIs) paired with an exact copy (20%) or a copy with one point "
         "mutation (rename, re-namespace, attribute add/remove/change/rename, content change, child add/remove, sibling swap, "
